@@ -2,16 +2,24 @@
 
 use crate::util::Ctx;
 
+pub mod c02;
 pub mod c04;
 pub mod c06;
+pub mod c09;
+pub mod c10;
+pub mod c11;
 pub mod c13;
 pub mod c14;
 pub mod c19;
 
 pub fn dispatch(ctx: &mut Ctx) -> bool {
 	match ctx.id.as_str() {
+		"C02" => c02::run(ctx),
 		"C04" => c04::run(ctx),
 		"C06" => c06::run(ctx),
+		"C09" => c09::run(ctx),
+		"C10" => c10::run(ctx),
+		"C11" => c11::run(ctx),
 		"C13" => c13::run(ctx),
 		"C14" => c14::run(ctx),
 		"C19" => c19::run(ctx),
@@ -25,8 +33,12 @@ pub fn dispatch(ctx: &mut Ctx) -> bool {
 pub fn confirm(key: &str) -> Option<Option<String>> {
 	let prop = key.split('.').next().unwrap_or("");
 	match prop {
+		"C02" => c02::confirm(key),
 		"C04" => c04::confirm(key),
 		"C06" => c06::confirm(key),
+		"C09" => c09::confirm(key),
+		"C10" => c10::confirm(key),
+		"C11" => c11::confirm(key),
 		"C13" => c13::confirm(key),
 		"C14" => c14::confirm(key),
 		"C19" => c19::confirm(key),
